@@ -1,23 +1,27 @@
 ---- MODULE MultiClientMC ----
 (* Exhaustive design check: every number of primaries 1..MaxP and fallbacks 0..MaxB, every call style, every
-   outcome vector, every completion order, the caller's cancellation at any point (also before the call). *)
+   outcome vector, every set of at most MaxDeaf nodes that ignore their context, every completion order, the caller's
+   cancellation at any point (also before the call), the release of stuck nodes after the answer is fixed. *)
 EXTENDS MultiClient
-CONSTANTS MaxP, MaxB
+CONSTANTS MaxP, MaxB, MaxDeaf
 MCInit == \E p \in 1..MaxP, b \in 0..MaxB, st \in Styles :
-            \E o \in [1..(p + b) -> ClassesOf(st)] : InitWith(p, b, st, o)
-MCNext == Call \/ (\E i \in Nodes : NodeDone(i)) \/ CancelCaller \/ CtxReturn \/ Deliver
+            \E o \in [1..(p + b) -> ClassesOf(st)], df \in SUBSET (1..(p + b)) :
+              Cardinality(df) <= MaxDeaf /\ InitWith(p, b, st, o, df)
+MCNext == Call \/ (\E i \in Nodes : NodeDone(i) \/ Release(i)) \/ CancelCaller \/ CtxReturn \/ Deliver
 MCSpec == MCInit /\ [][MCNext]_vars
-\* liveness: the caller's loop keeps running, nodes that do not hang answer eventually
+\* liveness: the caller's loop keeps running, nodes that do not hang answer eventually (a deaf one: late)
 FairSpec == /\ MCSpec /\ WF_vars(Call) /\ WF_vars(CtxReturn) /\ WF_vars(Deliver)
             /\ \A i \in 1..(MaxP + MaxB) : WF_vars(NodeDone(i))
 \* a call succeeds whenever one primary answers successfully (unless the caller gives up)
 SuccessIfAny == (PrimOK # {}) ~> (delivered /\ ret.k \in {"ok", "ctx"})
-\* cancelling the caller's context returns
-CancelPrompt == cancelled ~> delivered
+\* cancelling the caller's context returns -- as coded not while every running request is stuck for good
+\* (CancelPromptInv is the safety form without that exception)
+StuckForGood == phase \in {"prim", "fall"} /\ \A i \in Running : i \in deaf /\ outcome[i] = "hang"
+CancelPrompt == cancelled ~> (delivered \/ (CancelMode # "prompt" /\ StuckForGood))
 \* without hanging nodes every call returns
 Terminates == (\A i \in Nodes : outcome[i] # "hang") ~> delivered
-\* with a successful primary the call returns even if every other node hangs: no step but the successful node's
-\* own completion (or the caller's cancellation) is needed -- as a state predicate: while a successful primary is
-\* running and the call is not cancelled, that node's NodeDone is enabled
+\* with a successful primary the call returns even if every other node hangs or is stuck: no step but the successful
+\* node's own completion (or the caller's cancellation) is needed -- as a state predicate: while a successful primary
+\* is running and the call is not cancelled, that node's NodeDone is enabled
 NeverStuckBehindOthers == (phase = "prim" /\ ~cancelled) => \A i \in PrimOK : ENABLED NodeDone(i)
 ====
